@@ -167,8 +167,47 @@ def run_case(case):
                             lat = r.read_latest()
                             if [int(x) for x in lat.keys()] != [hi] or lat[hi].get("v") != model[hi]:
                                 fail("visibility-latest:" + name, "step %d after write of %d: read_latest -> %r expected [%d]" % (si, k, list(lat.keys()), hi))
+                            # a forward-filled read that starts just after the new sample finds it
+                            gf = r.read(k + 1, k + 2, method="ffill")
+                            expf = [max(x for x in model if x <= k + 1)] + [x for x in sorted(model) if k + 1 < x <= k + 2]
+                            if [int(x) for x in gf.keys()] != expf:
+                                fail("visibility-ffill:" + name, "step %d after write of %d: read(%d,%d,'ffill') -> %r expected %r" % (si, k, k + 1, k + 2, list(gf.keys()), expf))
+                            for res_ in (got, lat, gf):  # the caller does what it likes with results
+                                for d_ in res_.values():
+                                    d_.clear()
                         except Exception as e:
                             fail("visibility-exception:%s:%s" % (name, type(e).__name__), "step %d after write of %d: %s" % (si, k, e))
+                    # the same through the RF reader of the channel (read_metadata: the metadata of ch0 plus the channel's own
+                    # rate entries), oldest and newest reader object; a range before all metadata yields the rate entries alone
+                    try:
+                        with rfharness.quiet_fds():
+                            if not rf_readers:
+                                rf_readers.append(drf.DigitalRFReader(top))
+                            rds = [("old-rf", rf_readers[0]), ("new-rf", drf.DigitalRFReader(top))]
+                        for name, rr in rds:
+                            for k in ks_w:
+                                gm = rr.read_metadata(k, k + 2, "ch0")
+                                expm = [x for x in sorted(model) if k <= x <= k + 2]
+                                if [int(x) for x in gm.keys()] != expm or gm[k].get("v") != si or gm[k].get("sample_rate_numerator") != N \
+                                        or gm[k].get("sample_rate_denominator") != D or "samples_per_second" not in gm[k]:
+                                    fail("visibility-read_metadata:" + name, "step %d after write of %d: read_metadata(%d,%d) -> %r" % (
+                                        si, k, k, k + 2, {int(a_): dict(b_) for a_, b_ in gm.items()}))
+                                for d_ in gm.values():  # an application annotates / prunes what it was given
+                                    d_.pop("samples_per_second", None)
+                                    d_["v"] = -7
+                                    d_["operator_note"] = "seen"
+                            if lo >= 10:
+                                ge = rr.read_metadata(lo - 9, lo - 5, "ch0")
+                                if [int(x) for x in ge.keys()] != [lo - 9] or sorted(ge[lo - 9]) != ["sample_rate_denominator", "sample_rate_numerator", "samples_per_second"]:
+                                    fail("visibility-read_metadata-empty:" + name, "step %d: read_metadata(%d,%d) before all metadata -> %r" % (
+                                        si, lo - 9, lo - 5, {int(a_): sorted(b_) for a_, b_ in ge.items()}))
+                                for d_ in ge.values():
+                                    d_.pop("samples_per_second", None)
+                                    d_["v"] = -7
+                                    d_["operator_note"] = "seen"
+                        rds[1][1].close()
+                    except Exception as e:
+                        fail("visibility-exception:read_metadata:%s" % type(e).__name__, "step %d after write of %r: %s" % (si, ks_w, e))
                     read_files[frel] = file_count[frel]  # the visibility reads above opened this file
                 elif kind == "rf":
                     r = rfharness.py_issue(rfw, RF_CFG, {"op": "w", "idx": st_["idx"], "len": st_["len"]}, rf_call)
